@@ -22,7 +22,7 @@ import os
 import shutil
 import tempfile
 import urllib.parse
-from pathlib import Path
+from pathlib import Path, PurePosixPath
 
 from common import vlib
 from common.vlib import g_bool, g_list, g_opt, g_str, g_z
@@ -207,6 +207,7 @@ class Recorder:
 
     def __init__(self):
         self.touches = []
+        self.effects = set()    # touches whose call returned without an exception
         self.temps = set()      # entries of the temporary files mkstemp created
         self.saved = {}
 
@@ -221,6 +222,7 @@ class Recorder:
 
         def wrap(modname, fname, orig):
             def f(*a, **k):
+                mark = len(rec.touches)
                 try:
                     if fname in ("unlink", "remove", "rmdir", "mkdir"):
                         rec.touches.append(("entry",) + rec._entry(a[0]))
@@ -247,7 +249,10 @@ class Recorder:
                             rec.touches.append(("read", os.path.realpath(os.fsencode(os.fspath(a[0]))), b""))
                 except (ValueError, TypeError):
                     pass
+                n_before = mark
                 r = orig(*a, **k)
+                # the call succeeded: what it touched is an EFFECT (a failed call changes nothing)
+                rec.effects.update(rec.touches[n_before:])
                 if fname == "mkstemp":
                     rec.temps.add(rec._entry(r[1]))
                 return r
@@ -292,7 +297,8 @@ def gen_upaths(rng, tree, root):
              q(R), "/", "/etc/passwd", "new.m3u8", "sub/new.m3u8", "%2e%2e/outside/a.m3u8", "%2e%2e%2foutside%2fa.m3u8",
              "..%2Foutside", "a%00b.m3u8", "L" * 300 + ".m3u8", "sub/" + "L" * 260, "//inside/a.m3u8", "a.m3u8/",
              "a.m3u8/x", "./a.m3u8", "ünï.m3u8", "%FF%FE.m3u8", "a.m3u8%2F..%2F..%2Foutside", q(R + "/inside/../outside/a.m3u8"),
-             q(R + "/outside/../inside/a.m3u8"), "link/..", "ldir/../a.m3u8", "nonexistent/../../outside/x.m3u8"]
+             q(R + "/outside/../inside/a.m3u8"), "link/..", "ldir/../a.m3u8", "nonexistent/../../outside/x.m3u8",
+             "foo", "noext", "sub/foo", ".foo", "foo.", "Sub2/bar", q(R + "/inside/foo")]
     for p, k in ins:
         cands.append(q("/".join(p)))
         if rng.random() < 0.3:
@@ -312,6 +318,10 @@ def gen_upaths(rng, tree, root):
             cands.append(q(R + "/outside/" + "/".join(p)) + "/" + rng.choice(["a.m3u8", "new.m3u8", ".."]))
     rng.shuffle(cands)
     return cands
+
+
+RENAME_NAMES = ["Re/named", "Re/named", "plain", "..", " .. ", ".", " . ", "../x", "../../x", "/etc/x", "..|..",
+                "outside", "../outside", "a.b", " ", "sub", "x" * 300]
 
 
 def oracle_upath(raw):
@@ -382,7 +392,20 @@ def m3u_stage(chk):
                 chk.count(1, nontrivial_key=("g", ti, raw) if ("%" in raw or ".." in raw or raw.startswith("/") or gcode != 10) else None)
                 chk.dist({10: "guard:inside", 11: "guard:refused"}.get(gcode, "guard:raises"))
                 # --- operations
-                op = rng.choice(["delete", "lookup", "get_items", "save", "save_rename"])
+                op = rng.choice(["delete", "lookup", "get_items", "save", "save_rename", "save_rename"])
+                # the new name of a renaming save: ordinary, with separators, '.', '..' (they
+                # survive path_from_name when the URI has no extension), names of existing
+                # directories, blank-ish
+                new_name = rng.choice(RENAME_NAMES + [n for n in tree["inside"][1] if tree["inside"][1][n][0] == "D"])
+                pure = PurePosixPath(os.fsdecode(os.fsencode(str(p))))
+                if pure.suffix == "" and pure.name not in ("", "..") and rng.random() < 0.6:
+                    # no extension: nothing is appended to the new name, so '.', '..' survive
+                    op = "save_rename"
+                    if rng.random() < 0.6:
+                        new_name = rng.choice(["..", " .. ", ".", " "])
+                stripped = new_name.strip().replace("/", "|")
+                if op == "save_rename" and new_name == pure.stem:
+                    op = "save"
                 before = snapshot(str(root))
                 cls = classify_path(p, base)
                 with Recorder() as rec:
@@ -399,7 +422,7 @@ def m3u_stage(chk):
                             res = provider.save(Playlist(uri=uri, tracks=(Track(uri="dummy:new"),)))
                             res = res and res.uri
                         else:
-                            res = provider.save(Playlist(uri=uri, name="Re/named", tracks=(Track(uri="dummy:new"),)))
+                            res = provider.save(Playlist(uri=uri, name=new_name, tracks=(Track(uri="dummy:new"),)))
                             res = res and res.uri
                         raised = 0
                     except Exception as e:  # noqa: BLE001
@@ -409,12 +432,14 @@ def m3u_stage(chk):
                 touches = [t for t in dict.fromkeys(rec.touches)
                            if not (t[0] == "entry" and ((t[1], t[2]) in rec.temps
                                                         or (t[1] in cdirs and t[2].startswith(b"tmp"))))]
-                monitors_m3u(chk, op, uri, cls, root, base, before, after, touches, res, ti, tree)
+                effects = [t for t in touches if t in rec.effects]
+                monitors_m3u(chk, op, uri, cls, root, base, before, after, effects, res, ti, tree,
+                             new_name if op == "save_rename" else None)
                 mop = {"delete": "m3u_delete fs base p", "lookup": "m3u_lookup fs base p", "get_items": "m3u_lookup fs base p",
                        "save": "m3u_save fs base p",
-                       "save_rename": f"m3u_rename fs base p {g_name(os.fsencode('Re|named' + p.suffix))}"}[op]
+                       "save_rename": f"m3u_rename fs base p {g_name(os.fsencode(stripped + pure.suffix))}"}[op]
                 this_ops.append((upath, mop, raised, touches))
-                op_meta.append({"tree": ti, "op": op, "uri": uri, "raised": raised,
+                op_meta.append({"tree": ti, "op": op, "uri": uri, "raised": raised, "new_name": new_name if op == "save_rename" else None,
                                 "touches": [(k, os.fsdecode(d), os.fsdecode(b)) for k, d, b in touches]})
                 chk.dist("op:" + op)
                 chk.count(1, nontrivial_key=("o", ti, op, raw) if touches else None)
@@ -504,10 +529,11 @@ def classify_path(p, base):
     return link_outside, is_base
 
 
-def monitors_m3u(chk, op, uri, cls, root, base, before, after, touches, res, ti, tree):
+def monitors_m3u(chk, op, uri, cls, root, base, before, after, touches, res, ti, tree, new_name=None):
+    """`touches`: the recorded calls that SUCCEEDED (effects)."""
     base_b = os.fsencode(str(base))
     link_outside, is_base = cls
-    case = {"op": op, "uri": uri.replace(str(root), "<R>"),
+    case = {"op": op, "uri": uri.replace(str(root), "<R>"), "new_name": new_name,
             "tree": sorted("/".join(q) + ("@" if k == "L" else "/" if k == "D" else "") for q, k in all_paths(tree, []))[:40]}
 
     def inside(d):
